@@ -5,6 +5,8 @@ CONSTANTS
   MaxSec = 1
   Timeouts = TRUE
   Handoff = TRUE
+  Eager = FALSE
+  Fifo = FALSE
   MaxWait = 3
   UniqueVals = TRUE
   Ghost = TRUE
